@@ -580,160 +580,133 @@ theorem BRef.ents_eq {t : BT Int V} {a : List (Int × V)} (h : BRef t a) : t.ent
 end BTree
 end Grafeo.Idx
 
-/-! ### `OrderedFloat` keys without NaN: the float index is the `i64`-style index on `F64.key` -/
+/-! ### `OrderedFloat` keys: the float index is the `i64`-style index on `fkeyI` -/
 namespace Grafeo.Idx
 section FloatSim
 variable {V : Type}
 
-/-- no stored key is a NaN -/
-def NF (m : List (Nat × V)) : Prop := ∀ e ∈ m, F64.isNaN e.1 = false
-def fmapK (m : List (Nat × V)) : List (Int × V) := m.map (fun e => (F64.key e.1, e.2))
+def fmapK (m : List (Nat × V)) : List (Int × V) := m.map (fun e => (fkeyI e.1, e.2))
 
 def Bound.mapKey {K K' : Type} (f : K → K') : Bound K → Bound K'
   | .unb => .unb
   | .inc k => .inc (f k)
   | .exc k => .exc (f k)
-def Bound.nf : Bound Nat → Prop
-  | .unb => True
-  | .inc k => F64.isNaN k = false
-  | .exc k => F64.isNaN k = false
 def Op.mapKey {K K' V : Type} (f : K → K') : Op K V → Op K' V
   | .ins k v => .ins (f k) v
   | .rem k => .rem (f k)
   | .clear => .clear
-def Op.nf : Op Nat V → Prop
-  | .ins k _ => F64.isNaN k = false
-  | .rem k => F64.isNaN k = false
-  | .clear => True
 
-theorem fcmp_eq_icmp {a b : Nat} (ha : F64.isNaN a = false) (hb : F64.isNaN b = false) :
-    fcmp a b = icmp (F64.key a) (F64.key b) := by
-  unfold fcmp F64.partialCmp icmp
-  simp only [ha, hb, Bool.or_self, Bool.false_eq_true, if_false, Option.getD_some]
-  by_cases h1 : F64.key a < F64.key b
-  · simp [h1, Int.compare_eq_lt.2 h1]
-  · by_cases h2 : F64.key a = F64.key b
-    · simp [h2]
-    · have : F64.key b < F64.key a := by omega
-      simp [h1, h2, Int.compare_eq_gt.2 this]
+theorem key_lt (b : Nat) : F64.key b < (2 ^ 63 : Int) := by
+  unfold F64.key F64.mag
+  have : b % 2 ^ 63 < 2 ^ 63 := Nat.mod_lt _ (by decide)
+  split <;> omega
 
-theorem fkeq_eq_ieq {a b : Nat} (ha : F64.isNaN a = false) (hb : F64.isNaN b = false) :
-    fkeq a b = ieq (F64.key a) (F64.key b) := by
-  unfold fkeq F64.feq ieq; simp only [ha, hb, Bool.not_false, Bool.true_and]
-  by_cases h : F64.key a = F64.key b <;> simp [h]
+/-- the repaired `OrderedFloat::cmp` is the integer order of `fkeyI`, for ALL bit patterns -/
+theorem fcmp_eq_icmp (a b : Nat) : fcmp a b = icmp (fkeyI a) (fkeyI b) := by
+  have ha := key_lt a
+  have hb := key_lt b
+  unfold fcmp F64.partialCmp fkeyI icmp
+  cases hna : F64.isNaN a <;> cases hnb : F64.isNaN b
+  · simp only [Bool.or_self, Bool.false_eq_true, if_false]
+    by_cases h1 : F64.key a < F64.key b
+    · simp [h1, Int.compare_eq_lt.2 h1]
+    · by_cases h2 : F64.key a = F64.key b
+      · simp [h2]
+      · have : F64.key b < F64.key a := by omega
+        simp [h1, h2, Int.compare_eq_gt.2 this]
+  · simp only [Bool.or_true, if_true, Bool.false_eq_true, if_false]
+    rw [if_pos ha]
+  · simp only [Bool.or_false, if_true, Bool.false_eq_true, if_false]
+    have h1 : ¬ ((2 : Int) ^ 63 < F64.key b) := by omega
+    have h2 : ¬ ((2 : Int) ^ 63 = F64.key b) := by omega
+    rw [if_neg h1, if_neg h2]
+  · simp
 
-theorem NF_cons {e : Nat × V} {r : List (Nat × V)} : NF (e :: r) ↔ F64.isNaN e.1 = false ∧ NF r := by
-  simp [NF]
-
-theorem bFind_sim {m : List (Nat × V)} (h : NF m) {k : Nat} (hk : F64.isNaN k = false) :
-    bFind fcmp m k = bFind icmp (fmapK m) (F64.key k) := by
+theorem bFind_sim (m : List (Nat × V)) (k : Nat) :
+    bFind fcmp m k = bFind icmp (fmapK m) (fkeyI k) := by
   induction m with
   | nil => rfl
   | cons x r ih =>
     obtain ⟨k', v'⟩ := x
-    rw [NF_cons] at h
-    simp only [bFind, fmapK, List.map_cons, fcmp_eq_icmp hk h.1]
+    simp only [bFind, fmapK, List.map_cons, fcmp_eq_icmp]
     split <;> simp_all [fmapK]
 
-theorem bSet_sim {m : List (Nat × V)} (h : NF m) {k : Nat} (hk : F64.isNaN k = false) (v : V) :
-    fmapK (bSet fcmp m k v) = bSet icmp (fmapK m) (F64.key k) v ∧ NF (bSet fcmp m k v) := by
+theorem bSet_sim (m : List (Nat × V)) (k : Nat) (v : V) :
+    fmapK (bSet fcmp m k v) = bSet icmp (fmapK m) (fkeyI k) v := by
   induction m with
-  | nil => simp [bSet, fmapK, NF, hk]
+  | nil => simp [bSet, fmapK]
   | cons x r ih =>
     obtain ⟨k', v'⟩ := x
-    rw [NF_cons] at h
-    have ih' := ih h.2
-    simp only [bSet, fmapK, List.map_cons, fcmp_eq_icmp hk h.1]
-    split <;> simp_all [fmapK, NF_cons]
+    simp only [bSet, fmapK, List.map_cons, fcmp_eq_icmp]
+    split <;> simp_all [fmapK]
 
-theorem bErase_sim {m : List (Nat × V)} (h : NF m) {k : Nat} (hk : F64.isNaN k = false) :
-    fmapK (bErase fcmp m k) = bErase icmp (fmapK m) (F64.key k) ∧ NF (bErase fcmp m k) := by
+theorem bErase_sim (m : List (Nat × V)) (k : Nat) :
+    fmapK (bErase fcmp m k) = bErase icmp (fmapK m) (fkeyI k) := by
   induction m with
-  | nil => simp [bErase, fmapK, NF]
+  | nil => simp [bErase, fmapK]
   | cons x r ih =>
     obtain ⟨k', v'⟩ := x
-    rw [NF_cons] at h
-    have ih' := ih h.2
-    simp only [bErase, fmapK, List.map_cons, fcmp_eq_icmp hk h.1]
-    split <;> simp_all [fmapK, NF_cons]
+    simp only [bErase, fmapK, List.map_cons, fcmp_eq_icmp]
+    split <;> simp_all [fmapK]
 
-theorem rangeLo_sim {m : List (Nat × V)} (h : NF m) {lo : Bound Nat} (hl : lo.nf) :
-    fmapK (rangeLo fcmp lo m) = rangeLo icmp (lo.mapKey F64.key) (fmapK m) ∧ NF (rangeLo fcmp lo m) := by
+theorem rangeLo_sim (m : List (Nat × V)) (lo : Bound Nat) :
+    fmapK (rangeLo fcmp lo m) = rangeLo icmp (lo.mapKey fkeyI) (fmapK m) := by
   induction m with
-  | nil => cases lo <;> simp [rangeLo, fmapK, NF, Bound.mapKey]
+  | nil => cases lo <;> simp [rangeLo, fmapK, Bound.mapKey]
   | cons x r ih =>
     obtain ⟨k', v'⟩ := x
-    have h' := h
-    rw [NF_cons] at h'
-    have ih' := ih h'.2
     cases lo with
-    | unb => exact ⟨by simp [rangeLo, Bound.mapKey], by simpa [rangeLo] using h⟩
+    | unb => simp [rangeLo, Bound.mapKey]
     | inc k =>
-      simp only [Bound.nf] at hl
-      simp only [rangeLo, fmapK, List.map_cons, Bound.mapKey, fcmp_eq_icmp hl h'.1]
-      split <;> simp_all [fmapK, NF_cons, Bound.mapKey]
+      simp only [rangeLo, fmapK, List.map_cons, Bound.mapKey, fcmp_eq_icmp]
+      split <;> simp_all [fmapK, Bound.mapKey]
     | exc k =>
-      simp only [Bound.nf] at hl
-      simp only [rangeLo, fmapK, List.map_cons, Bound.mapKey, fcmp_eq_icmp hl h'.1]
-      split <;> simp_all [fmapK, NF_cons, Bound.mapKey]
+      simp only [rangeLo, fmapK, List.map_cons, Bound.mapKey, fcmp_eq_icmp]
+      split <;> simp_all [fmapK, Bound.mapKey]
 
-theorem rangeHi_sim {m : List (Nat × V)} (h : NF m) {hi : Bound Nat} (hl : hi.nf) :
-    fmapK (rangeHi fcmp hi m) = rangeHi icmp (hi.mapKey F64.key) (fmapK m) := by
+theorem rangeHi_sim (m : List (Nat × V)) (hi : Bound Nat) :
+    fmapK (rangeHi fcmp hi m) = rangeHi icmp (hi.mapKey fkeyI) (fmapK m) := by
   induction m with
   | nil => cases hi <;> simp [rangeHi, fmapK, Bound.mapKey]
   | cons x r ih =>
     obtain ⟨k', v'⟩ := x
-    have h' := h
-    rw [NF_cons] at h'
-    have ih' := ih h'.2
     cases hi with
     | unb => simp [rangeHi, Bound.mapKey]
     | inc k =>
-      simp only [Bound.nf] at hl
-      simp only [rangeHi, fmapK, List.map_cons, Bound.mapKey, fcmp_eq_icmp hl h'.1]
-      split <;> simp_all [fmapK, NF_cons, Bound.mapKey]
+      simp only [rangeHi, fmapK, List.map_cons, Bound.mapKey, fcmp_eq_icmp]
+      split <;> simp_all [fmapK, Bound.mapKey]
     | exc k =>
-      simp only [Bound.nf] at hl
-      simp only [rangeHi, fmapK, List.map_cons, Bound.mapKey, fcmp_eq_icmp hl h'.1]
-      split <;> simp_all [fmapK, NF_cons, Bound.mapKey]
+      simp only [rangeHi, fmapK, List.map_cons, Bound.mapKey, fcmp_eq_icmp]
+      split <;> simp_all [fmapK, Bound.mapKey]
 
-theorem rangePanics_sim {lo hi : Bound Nat} (hl : lo.nf) (hh : hi.nf) :
-    rangePanics fcmp fkeq lo hi = rangePanics icmp ieq (lo.mapKey F64.key) (hi.mapKey F64.key) := by
-  cases lo <;> cases hi <;> simp only [Bound.nf] at hl hh <;>
-    simp [rangePanics, Bound.mapKey, fcmp_eq_icmp, fkeq_eq_ieq, hl, hh]
+theorem rangeEmpty_sim (lo hi : Bound Nat) :
+    rangeEmpty fcmp lo hi = rangeEmpty icmp (lo.mapKey fkeyI) (hi.mapKey fkeyI) := by
+  cases lo <;> cases hi <;> simp [rangeEmpty, Bound.mapKey, fcmp_eq_icmp]
 
 /-- simulation invariant -/
 structure FSim (t : BT Nat V) (t' : BT Int V) : Prop where
-  nf : NF t.ents
   ents : fmapK t.ents = t'.ents
   root : t.root = t'.root
 
-theorem FSim.step {t : BT Nat V} {t' : BT Int V} (h : FSim t t') {o : Op Nat V} (ho : o.nf) :
-    FSim (bStep fcmp t o) (bStep icmp t' (o.mapKey F64.key)) := by
-  obtain ⟨h1, h2, h3⟩ := h
+theorem FSim.step {t : BT Nat V} {t' : BT Int V} (h : FSim t t') (o : Op Nat V) :
+    FSim (bStep fcmp t o) (bStep icmp t' (o.mapKey fkeyI)) := by
+  obtain ⟨h2, h3⟩ := h
   cases o with
-  | ins k v =>
-    simp only [Op.nf] at ho
-    have := bSet_sim h1 ho v
-    exact ⟨this.2, by simp only [bStep, bInsert, Op.mapKey]; rw [this.1, h2], rfl⟩
-  | rem k =>
-    simp only [Op.nf] at ho
-    have := bErase_sim h1 ho
-    exact ⟨this.2, by simp only [bStep, bRemove, Op.mapKey]; rw [this.1, h2], h3⟩
-  | clear => exact ⟨by simp [bStep, bClear, BT.empty, NF], rfl, rfl⟩
+  | ins k v => exact ⟨by simp only [bStep, bInsert, Op.mapKey]; rw [bSet_sim, h2], rfl⟩
+  | rem k => exact ⟨by simp only [bStep, bRemove, Op.mapKey]; rw [bErase_sim, h2], h3⟩
+  | clear => exact ⟨rfl, rfl⟩
 
-theorem FSim.fold {t : BT Nat V} {t' : BT Int V} (h : FSim t t') (ops : List (Op Nat V))
-    (ho : ∀ o ∈ ops, o.nf) :
-    FSim (ops.foldl (bStep fcmp) t) ((ops.map (Op.mapKey F64.key)).foldl (bStep icmp) t') := by
+theorem FSim.fold {t : BT Nat V} {t' : BT Int V} (h : FSim t t') (ops : List (Op Nat V)) :
+    FSim (ops.foldl (bStep fcmp) t) ((ops.map (Op.mapKey fkeyI)).foldl (bStep icmp) t') := by
   induction ops generalizing t t' with
   | nil => exact h
   | cons o r ih =>
     simp only [List.map_cons, List.foldl_cons]
-    exact ih (h.step (ho o (by simp))) (fun o' ho' => ho o' (by simp [ho']))
+    exact ih (h.step o)
 
-theorem FSim.run (ops : List (Op Nat V)) (ho : ∀ o ∈ ops, o.nf) :
-    FSim (bRun fcmp ops) (bRun icmp (ops.map (Op.mapKey F64.key))) :=
-  FSim.fold ⟨by simp [BT.empty, NF], rfl, rfl⟩ ops ho
+theorem FSim.run (ops : List (Op Nat V)) :
+    FSim (bRun fcmp ops) (bRun icmp (ops.map (Op.mapKey fkeyI))) :=
+  FSim.fold ⟨rfl, rfl⟩ ops
 
 end FloatSim
 end Grafeo.Idx
